@@ -89,6 +89,11 @@ impl<S> RequestHandler<S> for FilePathServer {
 
             let path_buf = PathBuf::from(path);
 
+            // Only regular files are served, since opening a named pipe or device could block forever
+            if !path_buf.is_file() {
+                return error_handler(StatusCode::NotFound);
+            }
+
             if let Ok(mut file) = File::open(&path_buf).await {
                 let mut buf = Vec::new();
                 if file.read_to_end(&mut buf).await.is_ok() {
